@@ -167,7 +167,8 @@ def describe(m, st, progs, sched, nat, nfin, C):
     return f"key at t={mval(m, st.now)}: {pre}; " + ' | '.join(cl) + f"; steps {' '.join(f'{t}:{op}' for t, op in sched)}; afterwards a get returns {nfin}"
 
 
-def explore_program(ck, names, constraints=None, allow_stale=False, policy=None, memory_limit=None, extra_obligations=None, known_regions=True, budget_s=None):
+def explore_program(ck, names, constraints=None, allow_stale=False, policy=None, memory_limit=None, extra_obligations=None, known_regions=True, budget_s=None, check_lin=True,
+                    frontier_depth=None, prefixes=None):
     """names: [['get'], ['set']] ... ; constraints(progs, st) -> list of z3 assumptions"""
     E = ck.E
     st = St(1)
@@ -188,8 +189,17 @@ def explore_program(ck, names, constraints=None, allow_stale=False, policy=None,
             for c in constraints(progs, st):
                 E.assume(c)
         w, obs, final, threads = run_concurrent(E, st, progs, policy=policy, memory_limit=memory_limit)
+        if policy:
+            final = final + (w.usage(),)
         return obs, final, sched_of(E.events), [e for e in E.events if e[0] in ('deadlock', 'self-deadlock')]
-    res = ck.explore(h, budget_s=budget_s) if budget_s else ck.explore(h)
+    if frontier_depth is not None:
+        return ck.E.frontier(h, frontier_depth)
+    kw = {}
+    if budget_s:
+        kw['budget_s'] = budget_s
+    if prefixes is not None:
+        kw['prefixes'] = prefixes
+    res = ck.explore(h, **kw)
     label = ' || '.join('[' + ','.join(p) + ']' for p in names)
     small = [z3.ULE(st.cas_id, 100), z3.ULE(st.now, 100000), z3.ULE(vlen(st.val[0]), 8)] + \
             [z3.ULE(vlen(inp.val), 8) for p in progs for _, inp in p]
@@ -225,8 +235,12 @@ def explore_program(ck, names, constraints=None, allow_stale=False, policy=None,
         if any(o.kind == 'blocked' for row in obs for o in row):
             ck.obligation(f'{label}: every command returns', p.pc, z3.BoolVal(False), {}, on_w, small)
             continue
-        phi = linearizable(st, progs, obs, final)
-        ck.obligation(f'{label}: responses and final content are those of a one-at-a-time order', p.pc, phi, R, on_w, small)
+        if check_lin:
+            phi = linearizable(st, progs, obs, final)
+            ck.obligation(f'{label}: responses and final content are those of a one-at-a-time order', p.pc, phi, R, on_w, small)
+        else:
+            ck.obligations += 1
+            ck.discharged += 1
         if extra_obligations:
             for name, f in extra_obligations:
                 ck.obligation(f'{label}: {name}', p.pc, f(progs, obs, final, st), R, on_w, small)
